@@ -35,6 +35,7 @@ func aliasedDoc(r *prng.R) interface{} {
 		"ea":   []interface{}{},
 		"b":    map[string]interface{}{"c": "low", "d": []interface{}{[]interface{}{1.0, 2.0}, []interface{}{3.0}}},
 		// objects below an array that is itself an item of an array (a table of rows)
+		"m":    []interface{}{spare([]interface{}{3.0, 1.0, 2.0, 1.0}), spare([]interface{}{9.0, 8.0})},
 		"rows": []interface{}{[]interface{}{map[string]interface{}{"k": "x", "v": 1.0}}, []interface{}{map[string]interface{}{"k": "y", "v": 2.0}, map[string]interface{}{"k": "x", "v": 3.0}}},
 	}
 }
@@ -55,7 +56,27 @@ func (g *c07Gen) arrPath() jast.Node {
 func (g *c07Gen) mutator() jast.Node {
 	r := g.r
 	x := g.arrPath()
-	switch r.Intn(12) {
+	switch r.Intn(14) {
+	case 12, 13:
+		// a row of a table (an array inside an array) selected by a predicate and
+		// then sorted, reversed, ...: the row belongs to the caller
+		g.tags["row-of-a-table"] = true
+		row := &jast.Pred{X: &jast.Name{V: "m"}, Filters: []jast.Node{&jast.Num{V: float64(r.Intn(2))}}}
+		var rowN jast.Node = row
+		if r.Intn(3) == 0 {
+			rowN = &jast.Path{Steps: []jast.Node{&jast.Var{Name: "reg"}, &jast.Pred{X: &jast.Name{V: "m"}, Filters: []jast.Node{&jast.Num{V: 0}}}}}
+		}
+		switch r.Intn(5) {
+		case 0:
+			return &jast.Sort{X: rowN, Terms: []jast.SortTerm{{Dir: r.Pick("", ">"), X: &jast.Var{Name: ""}}}}
+		case 1:
+			return call("sort", rowN)
+		case 2:
+			return call("reverse", rowN)
+		case 3:
+			return call("append", rowN, &jast.Num{V: 7})
+		}
+		return call("distinct", rowN)
 	case 0:
 		g.tags["$sort"] = true
 		return call("sort", x)
@@ -316,7 +337,8 @@ func (g *c07Gen) transformProgram() jast.Node {
 }
 
 func regValue() map[string]interface{} {
-	return map[string]interface{}{"list": []interface{}{2.0, 2.0, 3.0, 1.0}, "k": "x", "v": 7.0, "o": map[string]interface{}{"k": "x"}}
+	return map[string]interface{}{"list": []interface{}{2.0, 2.0, 3.0, 1.0}, "k": "x", "v": 7.0, "o": map[string]interface{}{"k": "x"},
+		"m": []interface{}{[]interface{}{5.0, 4.0, 6.0}, []interface{}{2.0, 1.0}}}
 }
 
 func c07Run(r *fw.Rec, tree jast.Node, prog string, doc interface{}, tag string, useModel bool) {
